@@ -77,7 +77,9 @@ DEFINITION_FAULTS = ["definition:missing-sealed", "definition:duplicate-names", 
 def _neutral() -> st.SearchStrategy:
     return st.sampled_from(
         ["", "", " ", "\t ", "# comment", "#", "  # indented comment", "FIELD", "FIELD", "CONST", "@assert true", "@print", "STRCONST", "@assert '#' != \"a'b\"  # not a comment start inside quotes",
-         "# comment with a quote ' and a hash #", "\x0c" if False else "@assert {1, 2}.count == 2"]
+         "# comment with a quote ' and a hash #", "@assert {1, 2}.count == 2",
+         "# form\x0cfeed, vertical\x0btab, \x1c\x1d\x1e, NEL \x85, LS \u2028 and PS \u2029 are ordinary comment characters",
+         "@assert 'a\x0cb\u2028c' != \"\x85\"  # neither do they end a line inside a string literal"]
     )
 
 
